@@ -424,6 +424,14 @@ def r8_transfer_wiring(ctx):
         ctx.check(len(carry) >= 1 and len(carry) == len(uses), f, carry[0] if carry else f.node, "non-elected candidates' ballots carried over unchanged",
                   astx.u(carry[0]) if carry else "", "ballots of non-elected candidates are no longer copied unchanged"
                   + (f": `{astx.u(pmf.get([u_ for u_ in uses if u_ not in carry][0]))[:70]}`" if len(carry) != len(uses) else ""))
+        # ... and they are the piles of exactly the candidates that were not elected: every ranked candidate's pile is
+        # either transferred or carried over, never both, never neither
+        for site in carry:
+            verdict, why = _carried_domain(prog, f, site, pmf)
+            if verdict is None:
+                ctx.undecided(f, site, "the carried-over piles are those of the candidates not elected in this step", why)
+            else:
+                ctx.check(verdict, f, site, "the carried-over piles are those of the candidates not elected in this step", why, why)
     f = prog.find_func("STV._single_elect_step")
     sel = prog.find_func("elect_cands_from_set_ranking")
     cs = astx.calls_in(f.node, "elect_cands_from_set_ranking")
@@ -447,6 +455,63 @@ def r8_transfer_wiring(ctx):
             good = (("truthy(self.simultaneous)" in lits) if pol else ("not truthy(self.simultaneous)" in lits)) and SOME_ABOVE8 in lits
         ctx.check(good, f, cs[0] if cs else f.node, f"{helper} used iff someone reached the threshold and simultaneous is {pol}", "",
                   f"{helper} is not selected by `len(above_thresh) > 0 and simultaneous is {pol}`")
+
+
+def _carried_domain(prog, f, site, pm):
+    """Whose piles are carried over unchanged?  (True / False / None = cannot tell, explanation)"""
+    from vk import elect
+    from rules import c08
+    if not isinstance(site.slice, ast.Name):
+        return None, f"pile index `{astx.u(site.slice)}` is not a loop variable"
+    x = site.slice.id
+    loops = [l for l in astx.enclosing_loops(site, pm, f.node) if isinstance(l, ast.For)]
+    l0 = next((l for l in loops if astx.is_name(l.target, x)), None)
+    if l0 is None:
+        return None, f"`{x}` is not bound by an enclosing for loop"
+    N = Normalizer(f.node, inline=False)
+    tier_filter = None
+    base = l0.iter
+    if isinstance(base, ast.Name):
+        l1 = next((l for l in loops if l is not l0 and astx.is_name(l.target, base.id)), None)
+        if l1 is not None:
+            # for tier in R: [if <filter on tier>:] for c in tier
+            inner = [c for c in astx.path_condition(f.node, l0, pm, carried=False) if any(y is c[0] for y in ast.walk(l1))]
+            tier_filter = sorted(literals(N.conj(inner))) if inner else []
+            base = l1.iter
+        else:
+            base = elect.flatten_base(base, f.node)
+    else:
+        base = elect.flatten_base(base, f.node)
+    elected_names = set()
+    for c in astx.calls_in(f.node):
+        if astx.u(c.func) == "self.transfer" and c.args:
+            pass
+    # the selector's `remaining` component (one-by-one step): elected + remaining partition the ranking (C10.R5 / C03.R9)
+    if isinstance(base, ast.Name):
+        src = astx.tuple_unpack_source(f.node, base.id)
+        if src is not None and isinstance(src[0], ast.Call) and astx.call_name(src[0]) == "elect_cands_from_set_ranking" and src[1] == 1 and not tier_filter:
+            return True, f"piles of the selector's remaining component `{base.id}`"
+    # candidate-level difference: set(<all ranked candidates>).difference(<elected candidates>)
+    if isinstance(base, ast.Call) and isinstance(base.func, ast.Attribute) and base.func.attr == "difference" and len(base.args) == 1 and not tier_filter:
+        whole = elect.flatten_base(base.func.value, f.node)
+        gone = elect.flatten_base(base.args[0], f.node)
+        whole_d = astx.unique_def(f.node, whole.id) if isinstance(whole, ast.Name) else whole
+        if whole_d is not None and astx.u(whole_d).endswith(".remaining"):
+            return True, f"piles of `{astx.u(whole)}` minus `{astx.u(gone)}`, candidate by candidate"
+    # tier-level filter: right only when the elected groups are whole tiers of the same ranking
+    if tier_filter is not None:
+        base_d = astx.unique_def(f.node, base.id) if isinstance(base, ast.Name) else base
+        if base_d is not None and astx.u(base_d).endswith(".remaining") and len(tier_filter) == 1:
+            m = re.fullmatch(rf"not in\((\w+), (.+)\)", tier_filter[0])
+            if m:
+                grp = ast.parse(m.group(2), mode="eval").body
+                grp = astx.strip_wrappers(grp, ("tuple", "list"))
+                origin = c08._origin(prog, f, grp, at=site) if isinstance(grp, ast.Name) else None
+                if origin is not None and origin.startswith("prefix of") and "selector" not in origin:
+                    return True, f"tiers of `{astx.u(base)}` that are not among the elected tiers (the elected groups are whole tiers: {origin})"
+                return False, (f"piles are carried tier by tier (`{tier_filter[0]}`), but `{astx.u(grp)}` need not consist of whole tiers of `{astx.u(base)}`: when a tiebreak "
+                               "elects one member of a tied tier, that tier is not `in` the elected groups and its whole pile - the winner's included - is carried over as well as transferred")
+    return None, f"piles of `{astx.u(base)[:60]}`" + (f" filtered by {tier_filter}" if tier_filter else "") + ": not one of the recognised partitions"
 
 
 def r9_round_local(ctx):
